@@ -94,7 +94,9 @@ TypeOK == /\ \A i \in DOMAIN A : A[i].R \in All
           /\ \A i \in DOMAIN B : B[i].R \in All
           /\ k \in 1..5 /\ px[1] > 0 /\ px[2] > 0
 
-\* the variable T is nothing but the analysis of the current lists
+\* the variable T is nothing but the analysis of the current lists: the same lists (the same list objects handed over a
+\* second time, in memory or as files, with any row labels / column order / integer storage) give the same table, and
+\* analysing does not change the lists (there is no analysis action: only Move changes A and B)
 C18_TableIsDerived == T = Table(A, B, k)
 
 \* tie-freeness survives rigid motion (so the table is well defined in every reachable state)
